@@ -194,6 +194,26 @@ def cycle_rules(rep, prog, f, leftover):
     rep.check("CYCLES.longer", leftover in ("entries", "count"), w, "longer cycles never drain and are caught after the loop", "nothing rejects cycles of length >= 3")
 
 
+def acyclicity_core(rep, prog):
+    """what every `graph is not a DAG -> ValueError` clause of the library rests on: is_dag is exactly "topological_ordering
+    returned", Kahn's loop has its shape, and every kind of cycle is rejected by the pre-check or the leftover test"""
+    # 2. is_dag == "topological_ordering returns"
+    wrapper_predicate(rep, prog, U + "is_dag", U + "topological_ordering", "A")
+
+    # 3. topological_ordering itself: rejects by ValueError, result derives from A
+    f = need(prog, U + "topological_ordering")
+    S = Sym(prog, inline=inline_helpers(prog, "sempler.utils"))
+    summ, _ = run_function(S, f)
+    rs = [r for r in S.select("raise", root=f.qname)]
+    rep.check("TOPO.raises", len(rs) >= 1 and all(r.exctype == "ValueError" for r in rs), fwhere(f),
+              "%d rejection sites, all ValueError" % len(rs), "rejections are not ValueError raises: %s" % [r.exctype for r in rs])
+    rets = S.select("return", qname=f.qname)
+    rep.check("TOPO.returns", bool(rets) and all(not is_const(r.value) for r in rets), fwhere(f),
+              "returns the computed ordering", "returns a constant")
+    leftover = kahn_rules(rep, prog, f, S)
+    cycle_rules(rep, prog, f, leftover)
+
+
 def run(prog, rep, tier):
     # 1. PATTERN
     entries = [(U + "is_dag", "A"), (U + "topological_ordering", "A"),
@@ -213,21 +233,7 @@ def run(prog, rep, tier):
                       "stored ordering self.%s depends on weight values" % attr)
     rep.require_count("PAT.entry", 6)
 
-    # 2. is_dag == "topological_ordering returns"
-    wrapper_predicate(rep, prog, U + "is_dag", U + "topological_ordering", "A")
-
-    # 3. topological_ordering itself: rejects by ValueError, result derives from A
-    f = need(prog, U + "topological_ordering")
-    S = Sym(prog, inline=inline_helpers(prog, "sempler.utils"))
-    summ, _ = run_function(S, f)
-    rs = [r for r in S.select("raise", root=f.qname)]
-    rep.check("TOPO.raises", len(rs) >= 1 and all(r.exctype == "ValueError" for r in rs), fwhere(f),
-              "%d rejection sites, all ValueError" % len(rs), "rejections are not ValueError raises: %s" % [r.exctype for r in rs])
-    rets = S.select("return", qname=f.qname)
-    rep.check("TOPO.returns", bool(rets) and all(not is_const(r.value) for r in rets), fwhere(f),
-              "returns the computed ordering", "returns a constant")
-    leftover = kahn_rules(rep, prog, f, S)
-    cycle_rules(rep, prog, f, leftover)
+    acyclicity_core(rep, prog)
 
     # 4. gates of the three constructors
     S1 = dag_gate(rep, prog, "sempler.lganm.LGANM.__init__", "W")
@@ -273,8 +279,12 @@ def run(prog, rep, tier):
               "DRFNet.__init__ does not delegate the graph check to BayesianNetwork.__init__ before fitting")
 
     # 5. API gates
+    # deciding acyclicity must not change the matrix it is asked about (Kahn's loop works on its own copy)
+    from .common import no_foreign_writes
+    no_foreign_writes(rep, prog, U + "topological_ordering", rule="OWN.kahn")
+    no_foreign_writes(rep, prog, U + "is_dag", rule="OWN.is_dag")
     for q, p in GATES:
         dag_gate(rep, prog, q, p, rule="GATE.api")
     rep.require_count("GATE", 20)
     rep.assume("Kahn's loop (each node once, every edge forward) is not decided statically; see DESIGN.md C03")
-    rep.analysed["sym.facts"] = len(S.facts) + len(S1.facts) + len(S2.facts)
+    rep.analysed["sym.facts"] = len(S1.facts) + len(S2.facts)
